@@ -1,5 +1,7 @@
 """C17: structural necessary conditions of memory safety: END-GUARD over every pgm:: / C-interface function, SENTINEL
-termination of every level, and the CLAMP / CAP / N-CAP clauses that keep positions inside [0, n]."""
+termination of every level, the CLAMP / CAP / N-CAP clauses that keep positions inside [0, n], and SELECT-RANGE for the
+Elias-Fano predecessor search."""
+import p_eliasfano
 import p_guards
 import p_multidim
 import p_search
@@ -40,4 +42,6 @@ def rules_c17(ctx):
         out += S.rule_clamp(ctx, which, ctx.units) + S.rule_cap(ctx, which, ctx.units) + S.rule_range_form(ctx, which, ctx.units)
     out += S.rule_clamp(ctx, 'wrapper', [ctx.cpgm]) + S.rule_cap(ctx, 'wrapper', [ctx.cpgm]) + S.rule_range_form(ctx, 'wrapper', [ctx.cpgm])
     out += S.rule_kind_compressed(ctx)
+    # Elias-Fano: the rank handed to select0 stays within the number of buckets (otherwise ef.low is indexed with a wild value)
+    out += p_eliasfano.rule_select_range(ctx)
     return out
